@@ -148,8 +148,18 @@ func validateChargingData(chargingData models.ChfConvergedChargingChargingDataRe
 		if nf == nil {
 			return invalid("nfConsumerIdentification is missing")
 		}
-		if plmn := nf.NFPLMNID; plmn != nil && (len(plmn.Mcc) != 3 || (len(plmn.Mnc) != 2 && len(plmn.Mnc) != 3)) {
-			return invalid("nFPLMNID needs a 3-digit mcc and a 2- or 3-digit mnc")
+		if plmn := nf.NFPLMNID; plmn != nil {
+			isDigits := func(s string) bool {
+				for _, r := range s {
+					if r < '0' || r > '9' {
+						return false
+					}
+				}
+				return true
+			}
+			if len(plmn.Mcc) != 3 || (len(plmn.Mnc) != 2 && len(plmn.Mnc) != 3) || !isDigits(plmn.Mcc) || !isDigits(plmn.Mnc) {
+				return invalid("nFPLMNID needs a 3-digit mcc and a 2- or 3-digit mnc")
+			}
 		}
 		if pdu := chargingData.PDUSessionChargingInformation; pdu != nil {
 			if pdu.PduSessionInformation == nil || pdu.PduSessionInformation.NetworkSlicingInfo == nil ||
